@@ -198,6 +198,12 @@ type fNatsServer struct {
 	workC        chan *frameWrapper
 	quit         chan chan<- error
 
+	// sendMu is held (shared) by a handler while it sends to workC and taken
+	// (exclusively) by Serve to close workC, so that the close never happens
+	// under a send. stopped is guarded by it.
+	sendMu  sync.RWMutex
+	stopped bool
+
 	onRequestReceived func(map[interface{}]interface{})
 	onRequestStarted  func(map[interface{}]interface{})
 	onRequestFinished func(map[interface{}]interface{})
@@ -238,7 +244,13 @@ func (f *fNatsServer) Serve() error {
 
 	// drain in-queue and workers
 	verifYield("natsserver.serve.drained", verifServerID(f))
+	// If the drain failed (connection closed, flush timed out) a handler may
+	// still be sending, or be invoked later: wait for the former (the workers
+	// are still receiving), turn the latter away.
+	f.sendMu.Lock()
+	f.stopped = true
 	close(f.workC)
+	f.sendMu.Unlock()
 	wg.Wait()
 	logger().Debug(`frugal: workers completed`)
 
@@ -306,6 +318,12 @@ func (f *fNatsServer) handler(msg *nats.Msg) {
 		return
 	}
 
+	f.sendMu.RLock()
+	defer f.sendMu.RUnlock()
+	if f.stopped {
+		logger().Warn("frugal: discarding NATS request received after the server stopped")
+		return
+	}
 	verifYield("natsserver.enqueue", verifSubjectID(msg.Reply))
 	f.workC <- &frameWrapper{frameBytes: msg.Data, reply: msg.Reply, ephemeralProperties: ephemeralProperties}
 }
